@@ -41,6 +41,25 @@ def _cases(draw):
     }
 
 
+class TiedTap(torch.nn.Module):
+    """a NON-quantized module of the model that holds the very Parameter a quantized module computes with (weights tied again after
+    quantize(), as `tie_weights()` of a language model does between its head and its embedding); it lets its input through"""
+
+    def __init__(self, weight):
+        super().__init__()
+        self.weight = weight
+
+    def forward(self, x):
+        return x
+
+
+def tie_tap(model, k):
+    qmods = [m for m in model.modules() if isinstance(m, QModuleMixin) and m.weight_qtype is not None and isinstance(m.weight, torch.nn.Parameter)]
+    if qmods:
+        model.append(TiedTap(qmods[k % len(qmods)].weight))
+    return bool(qmods)
+
+
 def same_output(a, b):
     if type(a) is not type(b):
         return False
@@ -60,7 +79,7 @@ def flat_state(model):
         if isinstance(m, QModuleMixin):
             s[f"{n}::attrs"] = (m.weight_qtype, m.activation_qtype, m.weight_group_size, m.frozen, m.training)
     # "untouched" also means: the same Parameter objects, still trainable (or not) as before
-    for n, p in model.named_parameters():
+    for n, p in model.named_parameters(remove_duplicate=False):
         s[f"{n}::param"] = (id(p), p.requires_grad)
     return s
 
@@ -157,6 +176,9 @@ def _exec_history(case):
     paramless_ln = not case["model"].get("ln_affine", True)
     if paramless_ln:
         model.to(dtype)  # a LayerNorm without parameters has no dtype quantize() could read: the user casts its scale buffers afterwards
+    tied = case["seed"] % 3 == 1 and tie_tap(model, case["seed"])
+    if tied:
+        out.klass.append("tied-after-quantize")
     if case["seed"] % 2:
         model.eval()
         out.klass.append("eval-mode")
@@ -285,6 +307,8 @@ def _exec_history(case):
                 quantize(m2, weights=wq, activations=aq, **opt_kw)
                 if paramless_ln:
                     m2.to(dtype)
+                if tied:
+                    tie_tap(m2, case["seed"])
                 r = cut(m2.load_state_dict, sd)
                 if isinstance(r, Raised):
                     return out.fail(f"reload-raises:{r.type}/{wk}/{'frozen' if frozen else 'unfrozen'}", r.text)
